@@ -1,13 +1,13 @@
 CONSTANTS
-  ID = {1, 2, 3}
+  ID = {1, 2}
   Mgr = {1}
   NoReq = 0
-  AnnVals = {}
-  MatIn = {"SYMMETRIC"}
+  AnnVals = {"k=a", "empty"}
+  MatIn = {"PRIVATE", "PUBLIC", "SYMMETRIC"}
   MaxEntries = 2
   MaxHandles = 1
-  OptMode = "canon"
-  MaxAnnList = 0
+  OptMode = "one"
+  MaxAnnList = 2
 INIT Init
 NEXT MCNextNoDev
 CONSTRAINT Bound
